@@ -245,6 +245,9 @@ def run(sim, params):
                 out = []
                 async for dp, dn, fn in P.walk(top_down=args["top_down"], follow_symlinks=args["follow"]):
                     out.append((rel(dp), tuple(sorted(dn)), tuple(sorted(fn))))
+                    if len(out) > 300 and args.get("_pre") == "tree_with_symlinks":
+                        # following a symbolic-link loop is bounded only by ELOOP on both sides: not a comparison worth making
+                        return "<walk through a symbolic-link loop: more than 300 directories>"
                     if len(out) > 300:
                         raise Violation("never_ends", f"walk({args}) yielded more than 300 directories for a tree of fewer than 40 entries: {out[-3:]}; case={canon(info)}",
                                         signature="walk:never_ends")
@@ -313,6 +316,8 @@ def run(sim, params):
                 info["ops"].append([k, op, "/".join(parts), shown])
                 sim.log("OP", k, i, op)
                 pre = precondition(op, args, lroot, parts)
+                if op == "walk":
+                    args["_pre"] = pre
                 LP = StreamFlowPath(os.path.join(lroot, *parts), context=ctx, location=lloc)
                 RP = StreamFlowPath(os.path.join(rvis, *parts), context=ctx, location=rloc)
                 lres = await guarded(LP, lroot, op, args)
@@ -390,6 +395,10 @@ def run(sim, params):
                 return "pattern_with_shell_metacharacters"
             if any(ch in part for part in parts for ch in "*?["):
                 return "directory_name_with_glob_metacharacters"
+            import glob as _glob
+
+            if any(ch in args["pattern"] for ch in "*?[") and not _glob.glob(os.path.join(_glob.escape(p), args["pattern"])) and os.path.lexists(os.path.join(p, args["pattern"])):
+                return "unmatched_pattern_is_the_name_of_an_entry"
         return None
 
     sim.run(main())
